@@ -8,7 +8,7 @@ A state is the history that reaches it.  ``Exec.run(pool, history)`` replays the
 clean slate (no handle held, gc.collect() done, interpretation stack at its base) while the boring model of
 ``fv.ref.hashcons`` is stepped in lockstep; after every event the invariants listed in ``LEVEL_RULE`` are evaluated
 on the real objects and compared with the model.  States are de-duplicated on the canonical form ``hashcons.canon``.
-The recipe pool (59 recipes) is explored per sub-pool (every recipe alone, every pair of same-kind recipes, in the
+The recipe pool (61 recipes) is explored per sub-pool (every recipe alone, every pair of same-kind recipes, in the
 thorough tier also every same-kind triple): histories over a sub-pool use every event that is relevant to it.
 """
 import copy
@@ -147,8 +147,9 @@ class Env:
         self.code = {}
         for r in H.RECIPE_LIST:
             self.code[r.name] = compile(r.src, "<recipe %s>" % r.name, "eval")
-            if r.alt:
-                self.code[r.name, "alt"] = compile(r.alt, "<recipe %s alt>" % r.name, "eval")
+            self.code[r.name, "alt"] = [
+                (a, compile(a, "<recipe %s alt %d>" % (r.name, i), "eval")) for i, a in enumerate(r.alts)
+            ]
         self.tables = None
         self.baseline = None
         self.recording_hot = False
@@ -470,7 +471,18 @@ class Exec:
             return
         name = key[0]
         bad = None
-        if dict((k, repr(v)) for k, v in obj.inputs.items()) != rec.inputs:
+        # attributes named like the constructor fields (.op/.lhs/.rhs, .arg, .var/.expr, ...) hold the arguments
+        for i, fld in enumerate(getattr(type(obj), "_ast_fields", ())):
+            v, a = getattr(obj, fld, None), obj._ast_values[i]
+            if isinstance(a, (e.Funsor, e.Op)) and isinstance(v, (e.Funsor, e.Op)) and v is not a:
+                bad = ("%s.%s is %s._ast_values[%d]" % (expr, fld, expr, i), True)
+                break
+            if isinstance(a, str) and isinstance(v, str) and v != a:
+                bad = ("%s.%s == %s._ast_values[%d]" % (expr, fld, expr, i), True)
+                break
+        if bad:
+            pass
+        elif dict((k, repr(v)) for k, v in obj.inputs.items()) != rec.inputs:
             bad = ("{k: repr(v) for k, v in %s.inputs.items()}" % expr, rec.inputs)
         elif repr(obj.output) != rec.output:
             bad = ("repr(%s.output)" % expr, rec.output)
@@ -610,17 +622,35 @@ class Exec:
             before = {id(o) for o in (ent.wr() for ent in self.reg) if o is not None} if check else ()
             try:
                 res = eval(e.code[r], e.ns)
-                alt = eval(e.code[r, "alt"], e.ns) if (r, "alt") in e.code else None
             except Exception as exc:  # the constructor itself raised: a decline (BUILDERS rule 2), counted
                 raise Declined("c:%s:%s" % (r, type(exc).__name__))
-            if (r, "alt") in e.code:
+            # other spellings of the SAME arguments (keywords in any order, mixed positional/keyword, defaults
+            # written out, f(**subs) in any order): each must give the identical object
+            for alt_src, alt_code in e.code[r, "alt"]:
+                try:
+                    alt = eval(alt_code, e.ns)
+                except Exception as exc:  # this spelling raises: a decline, counted; the others are still tried
+                    self.counters["decline:spelling:%s:%s" % (r, type(exc).__name__)] += 1
+                    continue
                 if alt is not res:
+                    akey = H.norm(self.walk(alt, "alt", []))
+                    site = ("cons:" if rec.kind == "term" else "intern:") + _cls_of(expected)
+                    if not H.matches(expected, akey) and H.matches(expected, H.norm(self.walk(res, "res", []))):
+                        d = H.first_diff(expected, akey)
+                        raise Violation(
+                            site, "stale",
+                            "the spelling %s under %s returned an object that was not built from these arguments: at %s "
+                            "expected %s, got %s" % (alt_src, ms.interp, d[0].format("alt"), _kt(d[1]), _kt(d[2])),
+                            ["alt = " + alt_src] + self._diff_asserts(d, "alt"),
+                            (), {"features": {"spelling": True}},
+                        )
                     raise Violation(
-                        "cons:" + _cls_of(expected), "two-objects-one-key",
-                        "two spellings of equal arguments gave two objects: %s  vs  %s" % (rec.src, rec.alt),
-                        ["assert res is (%s), 'same arguments after defaults, two objects'" % rec.alt],
+                        site, "two-objects-one-key",
+                        "two spellings of equal arguments gave two objects: %s  vs  %s" % (rec.src, alt_src),
+                        ["assert res is (%s), 'same arguments, two objects'" % alt_src],
+                        (), {"features": {"spelling": True}},
                     )
-            del alt
+                del alt
             key, ents = self.register(res)
             if not H.matches(expected, key):
                 d = H.first_diff(expected, key)
